@@ -97,6 +97,7 @@ def execute_scenario(mod, scn):
     from . import seams
 
     seams.clear_ranks()
+    seams.begin_run(scn.get("seed", 0))
     res = mod.execute(scn)
     seams.clear_ranks()
     res["digest"] = digest([scn, res.get("events", []), [v.get("clause") for v in res["violations"]]])
